@@ -98,7 +98,7 @@ PROPS = {
                      "recorded actions on a fresh env over the hidden game captured by after_reset; non-trivial = ≥ 2 repetitions, ≥ 2 steps, ≥ 2 distinct recorded gaps"),
             "assumptions": ["Pool / pickling semantics are modelled (DESIGN 3.6), not verified: 'proof over the stated process model'"],
             "trusted": ["CPython multiprocessing.Pool; numpy Generator.spawn independence"]},
-    "C14": {"lean": "ICG.Props.C14", "streams": [("corr_regret", "C14")], "quick_s": 60, "thorough_s": 600,
+    "C14": {"lean": ["ICG.Props.C14", "ICG.Props.Equivariance"], "streams": [("corr_regret", "C14")], "quick_s": 60, "thorough_s": 600,
             "rule": ("case = (n, limit, plus, history of regret_min_iteration calls); n=3 limits 1..8 ×3 histories, n=4 limits {1,2,5,9,10,12} (thorough: all 1..12, n=5 limits 1..3) × plain/plus; "
                      "terminal losses non-negative multiples of 1/8 or sparse 0/1; used_actions = all coalition sets of size min(limit,m), shuffled, sometimes partial / with dropped singletons; "
                      "exact comparison of structure and error kinds, float32 numbers vs exact Rat with tolerance 1e-5·max(1,‖·‖∞) and a float-tie guard; save/load through /tmp; non-trivial = "
